@@ -130,8 +130,32 @@ func c02AllPaths(r *core.Run, pk, msg, sig []byte, v c02Variant) (acc, total int
 	if pan, _ := Guard(func() { ek, _ = ed25519.NewExpandedPublicKey(pk) }); pan {
 		ek = nil
 	}
+	// ... and one batch verifier for the whole tour, Reset between batches as the documentation invites,
+	// alternating between expanded and unexpanded entries, clean batches and batches that need the serial pass
+	rv := ed25519.NewBatchVerifier()
 	for i, p := range c02presets {
 		o := &ed25519.Options{Hash: v.hash(), Context: v.ctx, Verify: p}
+		if c02companion != nil {
+			co := &ed25519.Options{Verify: p}
+			rv.Reset()
+			if i%2 == 1 {
+				rv.ForceNoPublicKeyExpansion()
+				rv.AddWithOptions(pk, msg, sig, o)
+				rv.AddWithOptions(c02companion.pk, c02companion.msg, c02companion.sig, co)
+				rv.AddWithOptions(c02companion.pk, c02companion.msg, c02companion.sig[:63], co)
+			} else {
+				rv.AddWithOptions(c02companion.pk, c02companion.msg, c02companion.sig, co)
+				rv.AddWithOptions(pk, msg, sig, o)
+			}
+			_, rres := rv.Verify(NewDetReader(uint64(i) + 61))
+			r.Count(c02batches)
+			total++
+			if len(rres) == 2+i%2 && rres[0] && rres[1] {
+				acc++
+			} else if detail == "" {
+				detail = "batch in a verifier reused after Reset/" + c02presetNames[i]
+			}
+		}
 		var ok bool
 		pan, pmsg := Guard(func() { ok = ed25519.VerifyWithOptions(pk, msg, sig, o) })
 		if pan {
